@@ -511,11 +511,15 @@ class Run:
         def on_error(error):
             ctl.pre(ONERR)
             ctl.rec(ONERR)
-            tb = traceback.extract_tb(error.__traceback__)
-            site = next((f.name for f in reversed(tb) if f.filename == ja.__file__), "?")
-            run.errs.append({"type": type(error).__name__, "msg": str(error)[:80], "site": site,
-                             "at": len(ctl.log) - 1})
+            # bookkeeping first: str(error) below calls JobDescription.__repr__, which is traced code
+            # (the other thread may run there at bytecode granularity)
+            at = len(ctl.log) - 1
             run.outs.append([2] if isinstance(error, RuntimeError) else [3] if isinstance(error, KeyError) else [9])
+            rec_ = {"type": type(error).__name__, "msg": "", "site": "?", "at": at}
+            run.errs.append(rec_)
+            tb = traceback.extract_tb(error.__traceback__)
+            rec_["site"] = next((f.name for f in reversed(tb) if f.filename == ja.__file__), "?")
+            rec_["msg"] = str(error)[:80]
 
         if opcode_mode:
             install_instruction_events(ja)
